@@ -123,6 +123,13 @@ func workerMain() {
 			continue
 		}
 		rp := reply{ID: rq.ID, Outcomes: map[string]int64{}, Reps: map[string]int64{}}
+		if rq.Case == nil && rq.Space == "" {
+			// handshake: the parent checks that a fresh worker came up before it
+			// attributes anything to a case
+			_ = enc.Encode(rp)
+			_ = out.Flush()
+			continue
+		}
 		if rq.Case != nil {
 			k := *rq.Case
 			r := x.run(&k, 0)
